@@ -39,6 +39,8 @@ def core_schema(mutation=True, subscription=True):
                        ("not", "[Filter!]"), ("range", "Range!"), ("pick", "Pick"),
                        ("type", "Filter"), ("notIn", "[Filter!]"), FieldDef("byKind", "Role", default="ADMIN"), ("extID", "ID")]),
         inp("Range", [("from", "Int"), ("to", "Int")]),
+        # a @oneOf input with a single member is still "exactly one key, never null"
+        inp("Solo", [("only", "Range")], one_of=True),
         inp("Pick", [("byId", "ID"), ("byName", "String"), ("byRange", "Range"), ("by_handle", "String"), ("userID", "ID"), ("type", "Range"), ("inList", "[Int!]"), ("grid", "[[Int]]"), ("rows", "[[String!]!]")], one_of=True),
     ]
     roots = {"query": "Q"}
